@@ -244,6 +244,22 @@ func Harness_C01_C31_reload_resize() {
 	c.w.reload <- struct{}{}
 	c.barrier()
 	zz.Assert(cache.VerifKeptLen(c.w.sampleCache) == newSize, "[C31] resize keeps min(old, new capacity) decisions")
+	// optionally one more trace is kept after the reload: it displaces the oldest remembered
+	// decision, not a recent one
+	extra := 0
+	if zz.NondetBool("newDecisionAfterReload") {
+		extra = 1
+		c.w.datasetSamplers["env"] = c.samp // the reload dropped the worker's samplers; the harness has no factory
+		c.samp.rate["D"] = 1
+		c.samp.keep["D"] = true
+		now += verifDur("dt")
+		c.setNow(now)
+		zz.Assert(c.i.AddSpan(c.span("D", true, 1)) == nil, "span admitted")
+		c.barrier()
+		now += int64(3 * time.Second)
+		c.tickAt(now)
+		zz.Assert(c.samp.calls["D"] == 1, "decided at the first tick after the root's SendDelay")
+	}
 	// late spans, newest decision first so that lookups do not evict each other
 	var late [3]*verifSpanRec
 	for t := 2; t >= 0; t-- {
@@ -255,7 +271,7 @@ func Harness_C01_C31_reload_resize() {
 		late[t] = &verifSpanRec{sp: sp, trace: t}
 	}
 	for t := 0; t < 3; t++ {
-		remembered := t >= 3-newSize // the newest newSize decisions survive the resize
+		remembered := t >= 3+extra-newSize // the newest newSize decisions (of A, B, C and the later D) are remembered
 		if remembered {
 			zz.Assert(c.samp.calls[tids[t]] == 1, "[C01,C31] a remembered decision is not made again for a late span")
 			zz.Assert(c.tx.count(late[t].sp.Event) == 1, "[C01,C31] late span of a remembered kept trace is forwarded")
